@@ -696,6 +696,11 @@ func runBounded(repo string, bc boundedCheck) (bool, string) {
 // property violation of the unchanged tree, so it does not change the exit code).
 func runSeededSelfTest(prop string) map[string]any {
 	res := map[string]any{}
+	if os.Getenv("VERIF_SKIP_SEEDED") != "" {
+		// development only: the registered thorough commands do not set this
+		res["skipped"] = "VERIF_SKIP_SEEDED set"
+		return res
+	}
 	dirs, _ := filepath.Glob(filepath.Join(verifDir(), "seeded", "*"))
 	sort.Strings(dirs)
 	var caught, missed []string
